@@ -63,7 +63,14 @@ func runText(s *Session) string {
 	fillObject(t, v, 0, 5)
 	// JSON cannot carry sub-second or out-of-range times: keep what it can represent
 	normaliseTimes(reflect.ValueOf(v).Elem())
-	js, merr := json.Marshal(v)
+	var js []byte
+	var merr error
+	if p := guardPanic(func() { js, merr = json.Marshal(v) }); p != "" {
+		// the filler left an interface member empty: not a value a decoder can produce
+		close(s.ea.done)
+		close(s.eb.done)
+		return "text-skipped"
+	}
 	if merr != nil {
 		s.violate("C20", "json-marshal", fmt.Sprintf("%s: json.Marshal failed: %v", k.name, merr))
 		close(s.ea.done)
